@@ -161,10 +161,36 @@ func c17(c *an.Ctx) {
 		o.Site(ins)
 		blk := an.NewBlocker()
 		n := 0
+		isLen := func(v ssa.Value) bool {
+			call, ok := v.(*ssa.Call)
+			if !ok {
+				return false
+			}
+			b, ok := call.Call.Value.(*ssa.Builtin)
+			return ok && b.Name() == "len" && an.IsFieldAccess(call.Call.Args[0], "conn", "subscriptions")
+		}
+		isMax := func(v ssa.Value) bool { return an.IsFieldAccess(v, "conn", "maxSubscriptions") }
 		for _, ci := range an.CondIfs(fn, func(v ssa.Value) bool {
-			s := an.Expr(v)
-			return s == "((len(c.subscriptions) + 1) > c.maxSubscriptions)" || s == "(len(c.subscriptions) >= c.maxSubscriptions)"
+			bo, ok := v.(*ssa.BinOp)
+			if !ok {
+				return false
+			}
+			switch bo.Op {
+			case token.GTR: // len+1 > max
+				add, ok := bo.X.(*ssa.BinOp)
+				return ok && add.Op == token.ADD && isLen(add.X) && isConstIntVal(add.Y, 1) && isMax(bo.Y)
+			case token.GEQ: // len >= max
+				return isLen(bo.X) && isMax(bo.Y)
+			case token.LSS: // max < len+1
+				add, ok := bo.Y.(*ssa.BinOp)
+				return ok && add.Op == token.ADD && isLen(add.X) && isConstIntVal(add.Y, 1) && isMax(bo.X)
+			case token.LEQ: // max <= len
+				return isMax(bo.X) && isLen(bo.Y)
+			}
+			return false
 		}) {
+			if ci.If.Cond.(*ssa.BinOp).Op == token.LSS || ci.If.Cond.(*ssa.BinOp).Op == token.LEQ || true {
+			}
 			blk.AddEdge(ci.If.Block(), ci.False)
 			n++
 		}
@@ -516,7 +542,7 @@ func c02(c *an.Ctx) {
 	// derivesFromPrevious: v is a load of the captured `previous`, or of ComputationInput.Previous
 	// of a literal whose Previous field was stored from `previous`.
 	derivesFromPrevious := func(cl *ssa.Function, v ssa.Value) bool {
-		prev := an.FreeVarNamed(cl, "previous")
+		prev := closureRoleVar(cl, "Previous")
 		if prev == nil {
 			return false
 		}
@@ -559,7 +585,7 @@ func c02(c *an.Ctx) {
 		if !strings.HasSuffix(an.Expr(cur), ".Current") {
 			o.FailAt(d, "diff.Diff's second argument (%s) is not the fresh result output.Current", an.Expr(cur))
 		}
-		prev := an.FreeVarNamed(cl, "previous")
+		prev := closureRoleVar(cl, "Previous")
 		an.Need(prev != nil, "captured previous")
 		var stores []ssa.Instruction
 		for _, r := range *prev.Referrers() {
@@ -667,7 +693,7 @@ func c02(c *an.Ctx) {
 			}
 			blk.Instr[ev.call] = true
 		}
-		init := an.FreeVarNamed(cl, "initial")
+		init := closureRoleVar(cl, "IsInitialComputation")
 		an.Need(init != nil, "captured initial")
 		for _, ci := range an.CondIfs(cl, func(v ssa.Value) bool {
 			ld, ok := v.(*ssa.UnOp)
@@ -686,7 +712,7 @@ func c02(c *an.Ctx) {
 		for _, nm := range []string{"(*conn).handleSubscribe", "(*conn).handleMutate"} {
 			fn := c.NeedFunc(gq, nm)
 			for _, cl := range rerunnerClosures(fn) {
-				id := an.FreeVarNamed(cl, "id")
+				id := closureRoleVar(cl, "Id")
 				an.Need(id != nil, "captured id in "+nm)
 				for _, f := range an.WithAnons(cl) {
 					for _, ev := range envelopesIn(f) {
@@ -725,7 +751,7 @@ func c02(c *an.Ctx) {
 				}
 				// id never written inside the closure
 				for _, f := range an.WithAnons(cl) {
-					if fv := an.FreeVarNamed(f, "id"); fv != nil {
+					if fv := an.FreeVarNamed(f, id.Name()); fv != nil {
 						for _, r := range *fv.Referrers() {
 							if st, ok := r.(*ssa.Store); ok && st.Addr == ssa.Value(fv) {
 								o.FailAt(st, "id reassigned inside the compute closure")
@@ -768,6 +794,20 @@ func c02(c *an.Ctx) {
 			o.FailAt(stops[0], "Stop must be synchronous (it waits for the in-flight run)")
 		}
 	})
+}
+
+// closureRoleVar finds a captured variable of a websocket compute closure by
+// its role, independent of its name: the variable loaded into the given field
+// of the ComputationInput literal ("Id", "Previous", "IsInitialComputation").
+func closureRoleVar(cl *ssa.Function, field string) *ssa.FreeVar {
+	for _, l := range an.StructLits(cl, "ComputationInput") {
+		if ld, ok := l.Fields[field].(*ssa.UnOp); ok && ld.Op == token.MUL {
+			if fv, ok := ld.X.(*ssa.FreeVar); ok {
+				return fv
+			}
+		}
+	}
+	return nil
 }
 
 // errorIfs finds the Ifs testing `x != nil` / `x == nil` on an error-typed
